@@ -28,6 +28,9 @@ class IPSWriter(Writer):
     def write_block_header(self, block: bytes, block_address: int) -> None:
         if self._copier_header:
             block_address += 0x200
+        if block_address == 0x454F46:
+            # the offset would read as the "EOF" marker and end the patch there.
+            raise ValueError("IPS cannot represent a record starting at offset 0x454F46 ('EOF').")
         self.file.write(struct.pack(">BH", block_address >> 16, block_address & 0xFFFF))
         self.file.write(struct.pack(">H", len(block)))
 
